@@ -118,8 +118,8 @@ pub fn families(property: &str) -> Vec<Family> {
         "C10" => vec![Family { fault_free: true, ..fam("c10_hostile", g::c10_hostile, 20_000, 500_000) }],
         "C12" => vec![fam("c12_many", g::c12_many, 12_000, 300_000)],
         "C13" => vec![fam("c13_pairing", g::c13_pairing, 12_000, 300_000)],
-        "C11" => vec![fam("c11_corrupt", g::c11_corrupt, 20_000, 500_000), fam("c11_unknown_ext", g::c11_unknown_ext, 10_000, 300_000), fam("c01_duplex", c01_duplex, 10_000, 200_000), fam("c13_pairing", g::c13_pairing, 4_000, 100_000)],
-        "C14" => vec![fam("c14_blackhole", g::c14_blackhole, 15_000, 400_000), fam("c14_converge", g::c14_converge, 600, 20_000), fam("c01_duplex", c01_duplex, 10_000, 200_000)],
+        "C11" => vec![fam("c11_corrupt", g::c11_corrupt, 20_000, 500_000), fam("c11_unknown_ext", g::c11_unknown_ext, 10_000, 300_000), fam("c01_duplex", c01_duplex, 10_000, 200_000), fam("c13_pairing", g::c13_pairing, 4_000, 100_000), Family { fault_free: true, ..fam("peer_sender_exact", ps_exact, 10_000, 250_000) }],
+        "C14" => vec![fam("c14_blackhole", g::c14_blackhole, 15_000, 400_000), fam("c14_converge", g::c14_converge, 600, 20_000), fam("c01_duplex", c01_duplex, 10_000, 200_000), fam("c14_near_rto", g::c14_near_rto, 8_000, 200_000)],
         "C15" | "C16" => vec![fam("c01_duplex", c01_duplex, 20_000, 500_000), fam("c15_extremes", c15_extremes, 15_000, 400_000), fam("c14_blackhole", g::c14_blackhole, 5_000, 100_000)],
         "C17" => vec![
             Family { fault_free: true, ..fam("c17_teardown", g::c17_teardown, 30_000, 800_000) },
@@ -154,6 +154,23 @@ fn merge(mut a: OracleResult, b: OracleResult) -> OracleResult {
 }
 
 fn c11_oracle(sc: &Scenario, out: &RunOutput) -> OracleResult {
+    // scripted-sender world: what a serialised selective ACK says is compared with what the
+    // endpoint holds (the receiver model of C04): "serialising a header and parsing it back
+    // yields the same header" seen from the wire
+    if sc.peer.is_some() {
+        let mut a = oracles::c11::check(sc, out);
+        let rel = a.relevant;
+        let mut b = oracles::c04::check(sc, out);
+        b.violations.retain(|v| matches!(v.tag, "sack-bit-missing" | "sack-bit-for-undelivered"));
+        for v in b.violations.iter_mut() {
+            v.property = "C11";
+            v.tag = if v.tag == "sack-bit-missing" { "serialised-sack-omits-held-packet" } else { "serialised-sack-names-packet-not-held" };
+        }
+        a.violations.extend(b.violations);
+        a.inconclusive |= b.inconclusive;
+        a.relevant = rel || b.relevant;
+        return a;
+    }
     let a = oracles::c11::check(sc, out);
     if sc.family == "c11_unknown_ext" {
         let rel = a.relevant;
